@@ -133,6 +133,9 @@ type Enc struct {
 	usedMarks    map[string]int
 	assumedPre   map[string]string
 	alias        map[string]string
+	instance     string
+	intValued    map[string]bool
+	shadow       map[string][2]string
 	curTag       int
 	ntag         int
 	curAllowed   map[int]bool
@@ -141,7 +144,7 @@ type Enc struct {
 func newEnc(p *Prog, fn *ssa.Function, spec *FuncSpec) *Enc {
 	e := &Enc{p: p, st: newSortTable(), regionSort: map[string]string{}, regionConst: map[string]string{}, root: fn, rootSpec: spec,
 		abstractions: map[string]bool{}, strLits: map[string]string{}, oblNames: map[string]int{},
-		usedTrusted: map[string]string{}, usedHavoc: map[string]bool{}, usedInline: map[string]bool{}, usedEffFree: map[string]bool{}, tupleVals: map[tupleKey]string{}, ghostUsed: map[string]bool{}, regionElem: map[string][2]string{}, usedMarks: map[string]int{}, assumedPre: map[string]string{}, alias: map[string]string{}}
+		usedTrusted: map[string]string{}, usedHavoc: map[string]bool{}, usedInline: map[string]bool{}, usedEffFree: map[string]bool{}, tupleVals: map[tupleKey]string{}, ghostUsed: map[string]bool{}, regionElem: map[string][2]string{}, usedMarks: map[string]int{}, assumedPre: map[string]string{}, alias: map[string]string{}, intValued: map[string]bool{}, shadow: map[string][2]string{}}
 	e.regionSort["heapTop"] = "Int"
 	return e
 }
